@@ -32,6 +32,7 @@ struct Shared {
     texts: Vec<String>,
     env_desc: J,
     deep: Arc<CommitNode>,          // a very deep chain, dropped by whichever thread lets go last
+    cjets: Vec<Arc<RedeemNode>>,    // hashing programs over C jets that work on buffers, each with its own data
 }
 
 fn make_shared(rng: &mut Rng) -> Shared {
@@ -92,10 +93,30 @@ fn make_shared(rng: &mut Rng) -> Shared {
         for k in 0..200_000 { n = if k % 2 == 0 { CN::take(&n) } else { CN::drop_(&n) }; }
         n.finalize_types_non_program().expect("deep chain")
     });
-    Shared { progs, commits, encodings, dags, bad_dags, types, values, policies, texts, env_desc, deep }
+    // init >>> add_buffer_511 / add_512 / add_64 >>> finalize, each program with a different buffer
+    let mut cjets = vec![];
+    for k in 0..12usize {
+        let p = types::Context::with_context(|ctx| {
+            use simplicity::node::{CoreConstructible, WitnessConstructible};
+            let len = [511usize, 500, 384, 257, 448, 300, 129, 64, 1, 0, 510, 333][k];
+            let data: Vec<u8> = (0..len).map(|i| (i * 31 + k * 7 + 1) as u8).collect();
+            let (jet, wit) = match k % 3 {
+                0 | 1 => ("sha_256_ctx_8_add_buffer_511", Value::buffer8_two_n_plus_one(8, &data).expect("buffer")),
+                _ => { let mut b = [0u8; 64]; for (i, x) in b.iter_mut().enumerate() { *x = (i * 13 + k) as u8; } ("sha_256_ctx_8_add_64", Value::u512(b)) }
+            };
+            let init = CN::jet(&ctx, &elements_jet("sha_256_ctx_8_init"));
+            let w = CN::witness(&ctx, Some(wit));
+            let add = CN::comp(&CN::pair(&init, &w).unwrap(), &CN::jet(&ctx, &elements_jet(jet))).unwrap();
+            let fin = CN::comp(&add, &CN::jet(&ctx, &elements_jet("sha_256_ctx_8_finalize"))).unwrap();
+            let prog = CN::comp(&fin, &CN::unit(&ctx)).unwrap();
+            prog.finalize_unpruned().expect("hash program")
+        });
+        cjets.push(p);
+    }
+    Shared { progs, commits, encodings, dags, bad_dags, types, values, policies, texts, env_desc, deep, cjets }
 }
 
-const KINDS: &[&str] = &["decode", "infer", "infer_err", "roots", "exec", "prune", "satisfy", "value", "clone_drop", "human", "types"];
+const KINDS: &[&str] = &["decode", "infer", "infer_err", "roots", "exec", "prune", "satisfy", "value", "clone_drop", "human", "types", "cjets"];
 
 fn count(sh: &Shared, kind: &str) -> usize {
     match kind {
@@ -104,6 +125,7 @@ fn count(sh: &Shared, kind: &str) -> usize {
         "satisfy" => sh.policies.len(),
         "value" => sh.values.len(),
         "human" => sh.texts.len(),
+        "cjets" | "storm" => sh.cjets.len(),
         _ => sh.types.len(),
     }
 }
@@ -186,6 +208,20 @@ fn run_op(sh: &Shared, env: &crate::env::Env, kind: &str, idx: usize) -> (String
             drop(c); drop(b); drop(a);
             format!("done {}", n)
         }
+        // the hash the C jets compute over this program's buffer (the value right before the final `unit`)
+        "cjets" | "storm" => {
+            let reps = if kind == "storm" { 300 } else { 20 };
+            let mut acc = String::new();
+            for i in 0..reps {
+                // storm: walk over all programs starting at idx, so that threads work on different buffers at the same time
+                let r = &sh.cjets[(idx + if kind == "storm" { i } else { 0 }) % sh.cjets.len()];
+                let fin = r.left_child().expect("comp");
+                let mut mac = BitMachine::for_program(&fin).expect("machine");
+                let d = match mac.exec(&fin, env) { Ok(v) => crate::c15::hex(&crate::tyval::bytes_from_bits(&v.iter_padded().collect::<Vec<bool>>())), Err(e) => format!("fail {}", e) };
+                if kind == "storm" { acc = dig(&format!("{}{}", acc, d)); } else { acc = d; }
+            }
+            acc
+        }
         "human" => match Forest::parse::<simplicity::jet::Core>(&sh.texts[idx]) {
             Ok(f) => { let t = f.string_serialize(); format!("ok {} {}", f.roots()["main"].cmr(), dig(&t)) }
             Err(e) => format!("err {}", e),
@@ -216,6 +252,10 @@ pub fn record(rounds: usize, threads: usize, ops: usize, path: &str) {
                 out.emit(&json!({"ev": "expect", "key": format!("{}:{}", kind, idx), "digest": d, "ids": ids}));
             }
         }
+        for idx in 0..sh.cjets.len() {
+            let (d, ids) = run_op(&sh, &env, "storm", idx);
+            out.emit(&json!({"ev": "expect", "key": format!("storm:{}", idx), "digest": d, "ids": ids}));
+        }
         // concurrently
         let plans: Vec<Vec<(usize, usize)>> = (0..threads).map(|_| (0..ops).map(|_| { let k = rng.below(KINDS.len()); (k, rng.below(count(&sh, KINDS[k]))) }).collect()).collect();
         let (tx, rx) = mpsc::channel::<J>();
@@ -234,7 +274,13 @@ pub fn record(rounds: usize, threads: usize, ops: usize, path: &str) {
                     let (d, ids) = r.unwrap_or_else(|p| (format!("panic: {}", p), vec![]));
                     let _ = tx.send(json!({"ev": "op", "t": t, "seq": seq + 1, "key": format!("{}:{}", KINDS[k], idx), "digest": d, "ids": ids}));
                 }
-                let _ = tx.send(json!({"ev": "end", "t": t, "count": ops}));
+                // all threads hash different buffers through the same C jets at the same time
+                barrier.wait();
+                let idx = t % sh.cjets.len();
+                let r = guarded(|| run_op(&sh, &env, "storm", idx));
+                let (d, ids) = r.unwrap_or_else(|p| (format!("panic: {}", p), vec![]));
+                let _ = tx.send(json!({"ev": "op", "t": t, "seq": ops + 1, "key": format!("storm:{}", idx), "digest": d, "ids": ids}));
+                let _ = tx.send(json!({"ev": "end", "t": t, "count": ops + 1}));
                 drop(sh); // whichever thread is last runs the destructors of everything shared
             }).unwrap());
         }
@@ -296,6 +342,36 @@ pub fn deepgen(shape: &str, depth: usize, path: &str) {
         });
         std::fs::write(&path, bytes).unwrap();
     }).unwrap().join().unwrap();
+}
+
+/// Build a program nested `depth` deep through the construction API, finalise it, encode it and drop everything
+/// (nodes, types, inference context), on the main thread or on a thread with the default stack.
+pub fn deepbuild(shape: &str, depth: usize, on_thread: bool) {
+    let shape = shape.to_string();
+    let work = move || {
+        use simplicity::node::CoreConstructible;
+        let n_bytes = types::Context::with_context(|ctx| {
+            let u = CN::unit(&ctx);
+            let mut n = u.clone();
+            let prog = match shape.as_str() {
+                "injl" => { for _ in 0..depth { n = CN::injl(&n); } CN::comp(&n, &CN::unit(&ctx)).unwrap() }
+                "take" => { for _ in 0..depth { n = CN::take(&n); } n }
+                // two separately built deep types that have to be unified structurally
+                "unify" => {
+                    for _ in 0..depth { n = CN::take(&n); }
+                    let u2 = CN::unit(&ctx);
+                    let mut v = u2.clone();
+                    for _ in 0..depth { v = CN::pair(&v, &u2).unwrap(); }
+                    CN::comp(&v, &n).unwrap()
+                }
+                _ => { let i = CN::iden(&ctx); let mut c = i.clone(); for _ in 0..depth { c = CN::comp(&c, &i).unwrap(); } CN::comp(&c, &u).unwrap() }
+            };
+            let c = if shape == "take" { prog.finalize_types_non_program() } else { prog.finalize_types() }.expect("types");
+            c.to_vec_without_witness().len()
+        });
+        println!("{}", json!({"class": "ok", "bytes": n_bytes}));
+    };
+    if on_thread { std::thread::spawn(work).join().unwrap(); } else { work(); }
 }
 
 /// Decode, display, execute and drop the program in `path`, on the main thread or on a spawned thread with the
